@@ -83,6 +83,8 @@ func (f *Future[T]) PipeTo(forwarders vivid.ActorRefs) error {
 	f.mu.Lock()
 	if f.closed.Load() {
 		f.mu.Unlock()
+		// closed 在 close() 一开始就被置位，此时 message/err 可能尚未写入：等待 done 关闭后再读取结果
+		<-f.done
 		f.tellForwarders(forwarders, f.message, f.err)
 		return nil
 	}
